@@ -117,6 +117,23 @@ func init() {
 			}
 			w.Notes["c16"] = &c16State{ent: e, wrk: wk, bcn: b, str: s, seen: map[uint64]bool{}}
 		},
+		AfterTx: func(w *World, bt *BuiltTx) {
+			// "every ... quorum tally ... uses the new values": the signers named by the parameters in force are the
+			// authorised ones. A decision or whitelist change by one of them that passed the pre-execution checks and
+			// was refused with the SDK's unauthorized error was judged against something else than the stored list.
+			if !bt.Delivered || bt.OK || !bt.AntePassed || bt.Tx.Wrap != WrapTop || bt.Tx.Fault != 0 || len(bt.Ops) != 1 {
+				return
+			}
+			o := bt.Ops[0]
+			if (o.Op.Kind != EntDecide && o.Op.Kind != EntWL) || o.Named.Key() != o.Signer.Key() {
+				return
+			}
+			if w.Ent.IsSigner(o.Signer.Key()) && bt.Res.Codespace == "sdk" && bt.Res.Code == 4 {
+				w.Fail("C16", "%s by %s, a signer named in the enterprise parameters in force (%q), was refused as unauthorised (code 4/sdk): the authorisation check does not use the stored values", o.Op.Kind, o.Signer.Name, w.Ent.P.Raw)
+			} else if w.Ent.IsSigner(o.Signer.Key()) {
+				w.Class("c16.listed-signer-not-refused-as-unauthorised")
+			}
+		},
 		AfterCommit: func(w *World) {
 			st, _ := w.Notes["c16"].(*c16State)
 			if st == nil {
